@@ -567,3 +567,16 @@ V("c15c-partner-sign-dropped", "C15", {"rule": "C15c", "contains": "general-arm"
   (CL, "        matrix_element_above = -U[modes[1], j]\n", "        matrix_element_above = U[modes[1], j]\n"))
 V("c15c-preserving-degenerate-phase-free", "C15", "silent",
   (CL, "        return np.pi / 2, 0.0\n", "        return np.pi / 2, 1.0\n"))
+
+# --- C09d sibling recurrences
+HERM = "piquasso/_math/hermite.py"
+JHERM = "piquasso/_math/jax/hermite.py"
+V("c09d-numpy-bra-block-offset-dropped", "C09", {"rule": "C09d", "contains": "same-loops"},
+  (HERM, "                * A[pivot, d + mode]\n", "                * A[pivot, mode]\n"))
+V("c09d-jax-initial-term-offset", "C09", {"rule": "C09d", "contains": "same-init"},
+  (JHERM, "    value = b[pivot] * density_matrix[row, col_lowered]\n", "    value = b[d + pivot] * density_matrix[row, col_lowered]\n"))
+V("c09d-jax-divisor-of-wrong-state", "C09", {"rule": "C09d", "contains": "same-divisor"},
+  (JHERM, "    return value / jnp.sqrt(ket[pivot].astype(real_dtype))", "    return value / jnp.sqrt(bra[pivot].astype(real_dtype))"))
+V("c09d-preserving-renamed-local", "C09", "silent",
+  (JHERM, "        lowered_col = lowered_indices[col_lowered, mode]\n", "        lc = lowered_indices[col_lowered, mode]\n"),
+  (JHERM, "            * density_matrix[row, lowered_col]\n", "            * density_matrix[row, lc]\n"))
